@@ -11,6 +11,9 @@
 (*   ShardIndex,      client/multilog.go  TemporalLogClient.IndexByDate,   *)
 (*   ConstructorAccepts                   NewTemporalLogClient             *)
 (*   ListCompatible   loglist3/logfilter.go  LogList.TemporallyCompatible  *)
+(*   Filter(v, ...)   loglist3/logfilter.go  the family of entry points:  *)
+(*                    TemporallyCompatible, Compatible, RootCompatible and *)
+(*                    their compositions (the API variants of the filter)  *)
 (*                                                                         *)
 (* InWindow and WellFormedList are written from the property text (C18);   *)
 (* the component operators are written the way each component is           *)
@@ -95,6 +98,90 @@ ListCompatible(t, ti) ==
   ELSE t < ti.e /\ (t > ti.s \/ t = ti.s)
 \* the interval a log-list entry denotes
 AsIv(ti) == IF ti.k = "absent" THEN Iv(NoBound, NoBound) ELSE Iv(At(ti.s), At(ti.e))
+
+(* ---------- log list filter: the API variants (entry points) of the filter ---------- *)
+\* The property names "the log-list compatibility filter" and observes it at TemporallyCompatible / Compatible.  The
+\* filter is one temporal condition that is offered through a FAMILY of entry points, alone and combined with the
+\* root-acceptance condition:
+\*   "TC"     ll.TemporallyCompatible(cert)
+\*   "C"      ll.Compatible(cert, root, roots)
+\*   "TC.RC"  ll.TemporallyCompatible(cert).RootCompatible(root, roots)   (what Compatible is documented to be; the
+\*            submission distributor calls this composition itself, with root = nil, for chains it cannot root)
+\*   "RC.TC"  ll.RootCompatible(root, roots).TemporallyCompatible(cert)   (the other composition order)
+\*   "RC"     ll.RootCompatible(root, roots)                              (takes no certificate: no temporal condition)
+\* From the property text: the temporal verdict is the same function of (t, start, limit) in EVERY variant - a log with
+\* a temporal interval is returned exactly when t is inside the interval and the same log WITHOUT an interval would
+\* have been returned by the same call (VariantIsWindow).  What the calls do with the root arguments is not the
+\* subject of the property; the code has a definite, documented behaviour, recorded as NAMED CLAUSE RootClause.
+FilterVariants == {"TC", "C", "TC.RC", "RC.TC", "RC"}
+TakesCert(v) == v # "RC"
+\* the certificate argument: a certificate with NotAfter = n, or none (nil)
+NoCert == NoBound
+CertAt(n) == At(n)
+Certs(T) == {NoCert} \cup {CertAt(n) : n \in T}
+\* the root argument: none (nil), a CA certificate, a certificate that is not a CA
+RootKinds == {"none", "ca", "notca"}
+\* what the roots collection knows about a log: no entry for it, an entry that contains the root, an entry without it
+RootsStates == {"unknown", "accepts", "rejects"}
+\* a log of the list: its temporal interval (Absent or Span) and what the roots collection knows about it
+FLog(ti, rs) == [ti |-> ti, rs |-> rs]
+FLogs(T) == {FLog(ti, rs) : ti \in {Absent} \cup {Span(s, e) : s \in T, e \in T}, rs \in RootsStates}
+
+\* TemporallyCompatible, on the set I of positions of the list L that are still in: nil certificate -> nothing
+TemporalPass(L, I, cert) == IF ~cert.p THEN {} ELSE {i \in I : ListCompatible(cert.v, L[i].ti)}
+\* RootCompatible: a root that is not a CA -> nothing; then per log: no entry in the collection -> in ("assuming no
+\* knowledge of its roots"); no root given -> out; else in when the entry contains the root
+RootKeeps(root, rs) ==
+  IF rs = "unknown" THEN TRUE
+  ELSE IF root = "none" THEN FALSE
+  ELSE rs = "accepts"
+RootPass(L, I, root) == IF root = "notca" THEN {} ELSE {i \in I : RootKeeps(root, L[i].rs)}
+\* Compatible: the temporal filter; without a root the collection is not consulted; else RootCompatible of the result
+CompatiblePass(L, I, cert, root) ==
+  LET active == TemporalPass(L, I, cert)
+  IN IF root = "none" THEN active ELSE RootPass(L, active, root)
+\* the positions of L a call of variant v returns
+Filter(v, L, cert, root) ==
+  LET all == 1..Len(L)
+  IN CASE v = "TC"    -> TemporalPass(L, all, cert)
+       [] v = "C"     -> CompatiblePass(L, all, cert, root)
+       [] v = "TC.RC" -> RootPass(L, TemporalPass(L, all, cert), root)
+       [] v = "RC.TC" -> TemporalPass(L, RootPass(L, all, root), cert)
+       [] v = "RC"    -> RootPass(L, all, root)
+
+\* the root factor of a call: would a log with this roots knowledge and NO temporal interval be returned (the
+\* certificate, where one is taken, being present)
+RootFactor(v, root, rs) == Filter(v, <<FLog(Absent, rs)>>, CertAt(0), root) = {1}
+\* FROM THE PROPERTY TEXT: in every variant the verdict on a log is (t inside the log's interval) and (root factor);
+\* the temporal factor is InWindow in every variant that takes a certificate and is missing in none of them
+VariantIsWindow(L, T) == \A v \in FilterVariants, root \in RootKinds, t \in T :
+  Filter(v, L, CertAt(t), root) =
+    {i \in 1..Len(L) : (TakesCert(v) => InIv(t, AsIv(L[i].ti))) /\ RootFactor(v, root, L[i].rs)}
+\* consequences spelled out: the compositions commute, Compatible with a root is the composition, Compatible without
+\* a root is TemporallyCompatible, and wherever two variants both let the interval-less twin of a log through they
+\* agree on the log itself
+VariantsAgree(L, T) == \A root \in RootKinds, crt \in Certs(T) :
+  LET F == [v \in FilterVariants |-> Filter(v, L, crt, root)]
+      R == [v \in FilterVariants |-> [rs \in RootsStates |-> RootFactor(v, root, rs)]]
+  IN /\ F["TC.RC"] = F["RC.TC"]
+     /\ (root # "none" => F["C"] = F["TC.RC"])
+     /\ (root = "none" => F["C"] = F["TC"])
+     /\ \A i \in 1..Len(L) :
+          LET passing == {v \in FilterVariants : TakesCert(v) /\ R[v][L[i].rs]}
+          IN Cardinality({(i \in F[v]) : v \in passing}) <= 1
+\* NAMED CLAUSE NilCertNothing: the property does not mention a missing certificate; every variant that takes one
+\* returns nothing without it (there is no NotAfter to place)
+NilCertNothing(L) == \A v \in FilterVariants, root \in RootKinds :
+  TakesCert(v) => Filter(v, L, NoCert, root) = {}
+\* NAMED CLAUSE RootClause: the root factor of each call, as documented at RootCompatible / Compatible ("Logs that are
+\* missing from the collection are treated as always compatible and included, even if an empty cert root is passed
+\* in"; "Do not check root compatibility if roots are not being provided"; "Cert-root when provided is expected to
+\* be CA-cert").  It never depends on the instant or on the interval.
+RootClause == \A v \in FilterVariants, root \in RootKinds, rs \in RootsStates :
+  RootFactor(v, root, rs) =
+    CASE v = "TC" -> TRUE
+      [] v = "C" /\ root = "none" -> TRUE
+      [] OTHER -> root # "notca" /\ (rs = "unknown" \/ (root = "ca" /\ rs = "accepts"))
 
 (* ---------- the representable range; the completion of absent bounds is NOT the predicate ---------- *)
 \* The instants a certificate can carry form a bounded range First..Last (RFC 5280 4.1.2.5: GeneralizedTime has a
